@@ -2,7 +2,11 @@
 # usage: seedkeep.sh <ID> <X> <caught_by> <needs...>   copies a confirmed seeded change into /verif/seeded/<ID>-<X>/
 ID=$1; X=$2; CB=$3; shift 3; NEEDS="$*"
 S=/tmp/seed/$ID/$X; D=/verif/seeded/$ID-$X; mkdir -p "$D"
-cp "$S/patch.diff" "$D/"; for f in demo_test.go demo.sh notes.md; do [ -f "$S/$f" ] && cp "$S/$f" "$D/"; done
+# re-base the patch on the current /repo HEAD (scratch worktree), so it applies with `git apply`
+W=$(mktemp -d /tmp/wt-rebase-XXXX); rmdir "$W"; git -C /repo worktree add -q --detach "$W" HEAD
+(cd "$W" && patch -p1 -s --no-backup-if-mismatch < "$S/patch.diff" && git add -A && git diff --cached > "$D/patch.diff") || { echo "REBASE FAILED for $ID/$X"; cp "$S/patch.diff" "$D/"; }
+git -C /repo worktree remove --force "$W"
+ for f in demo_test.go demo.sh notes.md; do [ -f "$S/$f" ] && cp "$S/$f" "$D/"; done
 python3 - "$ID" "$X" "$CB" "$NEEDS" "$(git -C /repo rev-parse --short HEAD)" <<'PY'
 import json,sys
 i,x,cb,needs,base=sys.argv[1:6]
